@@ -31,9 +31,14 @@ import (
 // srStream builds metadata + nchunks chunks of nsamples samples each (two int64 metrics)
 func srStream(nchunks, nsamples int) []byte {
 	w := &logWriter{}
-	c := newCollector("stream", nsamples, w)
+	c := newCollector("sdyn", nsamples, w)
 	_ = c.SetMetadata(encDoc(metaDocs[0]))
 	for i := 0; i < nchunks*nsamples; i++ {
+		if nchunks >= 3 && i/nsamples == 1 {
+			// the second chunk of a longer stream holds samples without a single metric: a good chunk like the others
+			_ = c.Add(encDoc([]elem{{"s", &val{T: 0x02, B: []byte("no metrics here")}}}))
+			continue
+		}
 		_ = c.Add(encDoc([]elem{{"a", &val{T: 0x12, I: int64(i)}}, {"b", &val{T: 0x12, I: int64(i * i % 7)}}}))
 	}
 	_ = flushColl(c, w)
@@ -334,6 +339,10 @@ func c05Run(entry string, cs srCase, label string, occ int, settle time.Duration
 		o.e3 = errFlag(it.Err())
 	}
 	it.Close()
+	// `defer iter.Close()` ... `iter.Err()`: what was reported before Close is still reported after it
+	if o.e3 == 1 && errFlag(it.Err()) == 0 {
+		o.e3 = 0
+	}
 	cancel()
 	s.releaseStall()
 	o.leftover = srQuiesce(2 * time.Second)
